@@ -35,6 +35,7 @@ def required_cells(tier):
     for p in ("in", "intersection", "eq-hash", "measure", "scalar-query", "there-and-back", "deepcopy-interleaved"):
         req["probe:" + p] = 200
     req["receiver:derived-by-negation"] = 100
+    req["pose:moved-into-the-minus1-minus2-slab"] = 20 if q else 400
     req["nt:int"] = 50
     req["nt:Fraction"] = 100
     return req
@@ -85,7 +86,27 @@ def cases(rng, budget, widx, nworkers, tier):
         for j in range(len(moves)):
             if own and rng.random() < 0.3:
                 moves[j] = K.mul(rng.choice(own), rng.choice((1, -1, 2, F(1, 2), F(-1, 2), 3)))
-        yield {"d": d, "style": style, "moves": moves, "ls": rng.getrandbits(30), "ps": rng.getrandbits(30),
+        lab = None
+        if k in ("PG", "PH") and rng.random() < 0.08:
+            # the moves end (or pass) where two vertices / faces of the object differ only in a coordinate -1 against -2,
+            # the one pair of small numbers CPython hashes alike
+            if k == "PH":
+                c, tgt = gen.slab_body(rng, wide=rng.random() < 0.3)
+            else:
+                c, _w, tgt = gen.slab_polygon(rng)
+            if rng.random() < 0.5:
+                step = [F(0)] * 3
+                step[c] = F(-1)
+                moves = [tuple(step)] * rng.randint(1, 4)
+            tot = (F(0), F(0), F(0))
+            for m in moves:
+                tot = K.add(tot, m)
+            from ..desc import translate
+            d0 = translate(tgt, K.mul(tot, -1))
+            if gen.ok_coords(d0, 8, 40):
+                d = d0
+                lab = "moved-into-the-minus1-minus2-slab"
+        yield {"d": d, "style": style, "moves": moves, "ls": rng.getrandbits(30), "ps": rng.getrandbits(30), "label": lab,
                "neg": rng.random() < 0.3, "copy_at": [j for j in range(len(moves)) if rng.random() < 0.25],
                "switch": rng.random() < 0.3, "nt": rng.choice(("float", "float", "float", "int", "int", "Fraction"))}
 
@@ -205,6 +226,8 @@ def judge(case):
     k = d[0]
     mu = core.Multi()
     mu.cell("kind:%s/style-%s" % (k, style))
+    if case.get("label"):
+        mu.cell("pose:" + case["label"])
     nt = {"int": int, "Fraction": F}.get(case.get("nt"), float)
     if nt is int and not all(F(c).denominator == 1 for c in gen.coords_of(d)):
         nt = float
